@@ -26,6 +26,7 @@ func defaultLayouts(nb int) []Layout {
 		{SGDur: 10, NShards: 1, Index: "inmem", Snap: alt, Final: 1},       // many shard groups, files
 		{SGDur: 0, NShards: 3, Index: "tsi1", Snap: alt, Final: 0},         // series spread over 3 shards, files + cache
 		{SGDur: 25, NShards: 2, Index: "inmem", Snap: all(true), Final: 0}, // groups x shards, several files each
+		{SGDur: 0, NShards: 1, Index: "inmem", Snap: all(false), Final: 0, Inflight: (nb + 1) / 2}, // a snapshot in flight under the later batches
 	}
 }
 
@@ -44,6 +45,9 @@ func genLayouts(r *hx.Rand, d Data, n int) []Layout {
 		l.Snap = make([]bool, nb)
 		for i := range l.Snap {
 			l.Snap[i] = r.Bool()
+		}
+		if nb > 1 && r.Chance(25) {
+			l.Inflight = 1 + r.Intn(nb-1)
 		}
 		ls = append(ls, l)
 	}
